@@ -161,7 +161,12 @@ func c15Gen(seed int64, idx int) c15Case {
 			if len(importers[f]) > 0 {
 				sb.WriteString("import (\n")
 				for _, d := range importers[f] {
-					switch rng.Intn(6) {
+					switch rng.Intn(8) {
+					case 6:
+						// an import path may be written as a raw string
+						fmt.Fprintf(&sb, "\t`%s`\n", pkgs[d].Import)
+					case 7:
+						fmt.Fprintf(&sb, "\t_ `%s`\n", pkgs[d].Import)
 					case 0:
 						fmt.Fprintf(&sb, "\tal%d %q\n", d, pkgs[d].Import)
 					case 1:
@@ -216,6 +221,15 @@ func c15Gen(seed int64, idx int) c15Case {
 					file.Markers = append(file.Markers, m+"+")
 				}
 				fmt.Fprintf(&sb, "\nfunc init() {\n\tmark(%q + depF%d())\n}\n", m, i)
+			}
+			if !file.Included && rng.Bool() {
+				// an excluded file is not read any further: it may hold Go that the script language does not have
+				sb.WriteString(core.Pick(rng, []string{
+					"\nfunc Sum[T ~int | ~float64](xs []T) T {\n\tvar t T\n\tfor _, x := range xs {\n\t\tt += x\n\t}\n\treturn t\n}\n",
+					"\ntype Set[K comparable] map[K]struct{}\n\nfunc (s Set[K]) Has(k K) bool {\n\t_, ok := s[k]\n\treturn ok\n}\n",
+					"\nfunc pump(c chan int, done <-chan struct{}) {\n\tfor {\n\t\tselect {\n\t\tcase c <- 1:\n\t\tcase <-done:\n\t\t\treturn\n\t\t}\n\t}\n}\n",
+					"\nfunc retry() int {\n\tn := 0\nagain:\n\tn++\n\tif n < 3 {\n\t\tgoto again\n\t}\n\treturn n\n}\n",
+				}))
 			}
 			if i == entry && f == 0 {
 				sb.WriteString("\nfunc main() {\n}\n")
